@@ -173,6 +173,51 @@ type KVStore struct {
 	FailDel  bool // next Delete fails
 	watchers []func(key string, value []byte, deleted bool)
 	Calls    int
+	Perm     int // index of the permutation applied to the sorted Query result
+}
+
+// nthPerm returns the k-th permutation (Lehmer order) of 0..n-1.
+func nthPerm(n, k int) []int {
+	idx := make([]int, n)
+	for i := range idx {
+		idx[i] = i
+	}
+	out := make([]int, 0, n)
+	f := 1
+	for i := 2; i < n; i++ {
+		f *= i
+	}
+	for i := n - 1; i >= 0; i-- {
+		d := 0
+		if f > 0 {
+			d = (k / f) % (i + 1)
+		}
+		out = append(out, idx[d])
+		idx = append(idx[:d], idx[d+1:]...)
+		if i > 0 {
+			f /= i
+		}
+		if f == 0 {
+			f = 1
+		}
+	}
+	return out
+}
+
+// Deliver invokes the registered watch callbacks synchronously (a change made by another node).
+func (s *KVStore) Deliver(key string, value []byte, deleted bool) {
+	s.mu.Lock()
+	if deleted {
+		delete(s.Data, key)
+	} else {
+		s.Data[key] = value
+	}
+	ws := append([]func(string, []byte, bool){}, s.watchers...)
+	s.mu.Unlock()
+	// only the most recently started allocator instance is alive
+	if len(ws) > 0 {
+		ws[len(ws)-1](key, value, deleted)
+	}
 }
 
 var errInjected = errors.New("injected store failure")
@@ -236,7 +281,8 @@ func (s *KVStore) Query(ctx context.Context, prefix string) ([]allocator.KeyValu
 	}
 	sort.Strings(keys)
 	var out []allocator.KeyValue
-	for _, k := range keys {
+	for _, i := range nthPerm(len(keys), s.Perm) {
+		k := keys[i]
 		out = append(out, allocator.KeyValue{Key: k, Value: s.Data[k]})
 	}
 	return out, nil
